@@ -443,8 +443,21 @@ def run_schema(prog, rep):
         if not asg:
             probs.append('dtypes[i] is not filled from column i')
     lam = lam_src(f).replace(' ', '')
-    if not re.search(r'%s\[\w+\+\+\]\.unit' % cols, lam):
+    loop_form = False
+    for x in f.walk():      # units[i] = cols[i].unit
+        if x.k in ('assign', 'call') and x.get('op') == '=' and len(x.c) == 2:
+            lt, rt = term(unwrap(x.c[0])), term(unwrap(x.c[1]))
+            if isinstance(lt, tuple) and lt[0] == 'op' and lt[1] == '[]' and isinstance(rt, tuple) and rt[0] == 'mem' and rt[1] == 'unit' \
+                    and isinstance(rt[2], tuple) and rt[2][0] == 'op' and rt[2][1] == '[]' and rt[2][3] == lt[3] and rt[2][2][0] == 'v' and rt[2][2][2] == cols:
+                loop_form = True
+    if not loop_form and not re.search(r'%s\[\w+\+\+\]\.unit' % cols, lam):
         probs.append('units are not generated from the columns in order')
+    # verbatim: wherever a column's unit or name is read in createData, the value stored is that field itself
+    for x in f.walk():
+        if x.k == 'member' and (x.decl or {}).get('name') in ('unit', 'name') and (x.decl or {}).get('cls', '').endswith('Column'):
+            par = _full_expr(f, x)
+            if par is not None and term(unwrap(par)) != term(x):
+                probs.append('the column %s is stored as %s, not verbatim' % (x.decl.get('name'), par.src(50)))
     sa = [c for c in f.calls(name='setAttr')]
     if not sa or real_args(sa[0])[0].src(10) != '"units"':
         probs.append('units are not stored under "units"')
@@ -462,6 +475,15 @@ def run_schema(prog, rep):
             m = re.match(r'^cols\[(\w+)\]\.(\w+)$', l)
             if m:
                 seen[m.group(2)] = (m.group(1), r)
+    for n in g.walk():
+        if n.k in ('assign', 'call') and n.get('op') == '=' and len(n.c) == 2:
+            lt, rt = term(unwrap(n.c[0])), term(unwrap(n.c[1]))
+            if isinstance(lt, tuple) and lt[0] == 'mem' and lt[1] in ('unit', 'name') and isinstance(lt[2], tuple) and lt[2][0] == 'op' and lt[2][1] == '[]':
+                idx = lt[2][3]
+                exact = (isinstance(rt, tuple) and rt[0] == 'op' and rt[1] == '[]' and rt[3] == idx) if lt[1] == 'unit' else \
+                        (isinstance(rt, tuple) and rt[0] == 'm' and rt[1] == 'member_name' and rt[-1] == idx)
+                if not exact:
+                    probs.append('the %s of a column is read back as %s, not verbatim' % (lt[1], n.c[1].src(50)))
     want = {'dtype': 'data_type_from_h5(dt.member_type(%s))', 'name': 'dt.member_name(%s)', 'unit': 'units[%s]'}
     for k, pat in want.items():
         if k not in seen:
@@ -476,6 +498,29 @@ def run_schema(prog, rep):
     h = [x for x in prog.fns(DF + '::colIndex') if 'string' in x.params[0]['type'] and 'vector' not in x.params[0]['type']][0]
     rule.check(any(c.callee.get('name') == 'member_index' for c in h.calls()), DF + '::colIndex', rep.where(h), h.label(), 'index of a name is member_index(name) of the stored type', 'column lookup does not use the stored compound type')
     return rule
+
+
+def _full_expr(f, x):
+    """the largest value expression x is part of: a return value, the right side of an assignment, or a call argument"""
+    par = {}
+    for n in f.walk():
+        for c in n.c:
+            if c is not None:
+                par[c.id] = n
+    cur = x
+    while True:
+        p = par.get(cur.id)
+        if p is None:
+            return None
+        if p.k == 'return':
+            return cur
+        if p.k in ('assign',) or (p.k == 'call' and p.get('op') == '='):
+            return cur if (len(p.c) == 2 and p.c[1] is not None and p.c[1].id == cur.id) else None
+        if p.k == 'call' and not p.get('op') and (p.callee or {}).get('name') in ('insert', 'push_back', 'emplace_back', 'setAttr'):
+            return cur
+        if p.k in ('compound', 'if', 'for', 'while', 'declstmt', 'var', 'lambda'):
+            return cur if p.k == 'var' else None
+        cur = p
 
 
 def lit(n):
